@@ -128,16 +128,21 @@ def oracle(ctx, cfg, steps, outs, calls, tag):
 
 LOGINS = ["alice", "bob", "Bob", "bob@ex.org", "carol@ex.org", "ALICE", "d"]
 PWS = ["p1", "p2", "p3", ""]
+# logins and passwords whose concatenations coincide (the cache digests hash salt+login+password without delimiter)
+SHIFT_LOGINS = ["anna", "annab", "ann", "an"]
+SHIFT_PWS = ["belle42", "elle42", "abelle42", "nabelle42"]
 
 
 def gen_history(rng, cfg):
     nlog = rng.randint(1, 5)
-    logins = rng.sample(LOGINS, nlog)
+    shift = rng.random() < 0.3
+    logins = rng.sample(SHIFT_LOGINS if shift else LOGINS, min(nlog, 4 if shift else 5))
+    pws = SHIFT_PWS if shift else PWS
     table = {}
     for l in logins:
         if rng.random() < 0.8:
             ml = map_login(cfg, l)
-            table[ml] = (rng.choice(PWS[:3]), ml if rng.random() < 0.7 else ml + "-canon")
+            table[ml] = (rng.choice(pws[:3]), ml if rng.random() < 0.7 else ml + "-canon")
     steps = []
     n = rng.randint(1, 40)
     exps = [cfg["succ"], cfg["fail"]]
@@ -148,10 +153,10 @@ def gen_history(rng, cfg):
             if rng.random() < 0.3:
                 del table[l]
             else:
-                table[l] = (rng.choice(PWS[:3]), table[l][1])
+                table[l] = (rng.choice(pws[:3]), table[l][1])
         elif r < 0.2:
             l = map_login(cfg, rng.choice(logins))
-            table[l] = (rng.choice(PWS[:3]), l)
+            table[l] = (rng.choice(pws[:3]), l)
         k = rng.random()
         if k < 0.35:
             dt = 0
@@ -166,7 +171,7 @@ def gen_history(rng, cfg):
         if ml in table and rng.random() < 0.55:
             pw = table[ml][0]
         else:
-            pw = rng.choice(PWS)
+            pw = rng.choice(pws)
         steps.append({"dt": dt, "l": l, "pw": pw, "creds": [[k2, v[0], v[1]] for k2, v in sorted(table.items())]})
     return steps
 
